@@ -413,3 +413,23 @@ Lemma helper_calls_helper :
        (n_twice, [(w_p, CFloat)], CFloat); (n_twice, [(w_p, CInt)], CInt)] /\
     tlookup n_ident (fe_calls (p_fe ps)) = Some [[TInt]; [TFloat]].
 Proof. eexists. split; [vm_compute; reflexivity|]. split; [reflexivity|]. split; vm_compute; reflexivity. Qed.
+
+(* ------------------------------------------------------------------ narrower into wider: what the C++ conversion does *)
+Definition same_num (v w : pval) : Prop :=
+  match as_num v, as_num w with
+  | Some a, Some b => Qeq (qof a) (qof b)
+  | None, None => v = w
+  | _, _ => False
+  end.
+
+(* a value of a narrower label (bool < int < float) stored into a variable declared from a wider scalar label is
+   converted without loss: the narrower-into-wider stores the declaration bookkeeping tolerates are exact on the device *)
+Theorem narrower_store_exact u t v :
+  scalar t = true -> sub_ty u t -> repr u v ->
+  exists w, c_store (cpp_type t) v = Some w /\ crepr (cpp_type t) w /\ same_num v w.
+Proof.
+  intros Hs Hsub Hr. pose proof (sub_ty_repr u t v Hsub Hr) as Ht. clear Hsub Hr.
+  destruct t; try discriminate Hs; destruct v; cbn in Ht; try contradiction; cbn [cpp_type c_store];
+    eexists; (split; [reflexivity|]); (split; [exact I|]); unfold same_num; cbn [as_num qof];
+    try reflexivity; try apply Qeq_refl; try (symmetry; apply Qred_correct).
+Qed.
